@@ -230,11 +230,13 @@ NOTES = {
            'the unit test pins top / second; `docs.md` says `OP_RANDOM` takes its size from the tape, `language_spec.md` and the tests say stack.',
     'C07': 'Harness: `step` — P1 over all 92 opcodes + NOP codes with symbolic limits: stack and item limits, no silent drop of the deque, '
            'pointer monotone and inside the tape, call depth (nested bodies carry the spent budget; CALL / EVAL spend one), LOOP iterations, '
-           'error classes, and every allocation request ≤ 255·max_item_size before it happens.',
+           'error classes, and every allocation request ≤ 255·max_item_size before it happens. The UTF-8 instructions also run on arbitrary '
+           'bytes (multi-byte sequences decoded under the solver).',
     'C08': 'Harness: `step` — P1 over all opcodes with the recording cache: only byte-string keys are written (plus the control flag by control '
            'instructions), every embedder entry is the same object afterwards, no new string keys, only documented readers read string keys; a '
            'mutable (`bytearray`) embedder value is never altered, never handed to the script by reference, and every stack item is immutable '
-           '`bytes` (the invariant that makes the one-step argument inductive).',
+           '`bytes` (the invariant that makes the one-step argument inductive); for the readers of string keys also with the sigfields '
+           'themselves supplied as `bytearray`s.',
     'C09': 'Harnesses: `construct` — per construct, from a parent under an arbitrary embedder configuration with spent call budget, optionally '
            'after a parent-level flag instruction; summarised bodies may execute real flag instructions: flags at body entry equal the flags '
            'in force at that moment (and the previous iteration\'s exit flags for LOOP), plugins / contracts / limit / count carried. '
@@ -260,7 +262,8 @@ NOTES = {
            '`tweak_validity` (a verdict / an adapter only for a valid tweak point), `ptlc_tweak`. The negative clauses "the adapter itself '
            'is not a valid signature" need hash independence beyond the generic-group model and were dropped from the claim (solver unknown); '
            'they are listed as outside.',
-    'C18': 'Harnesses: `amhl` (AMHL class, n ≤ 4 / 6), `wrong_hop`, `tools` (`setup_amhl` + adapter cascade), `tools_noseed` (empty seed), `tools_refunds` (partial refund maps: every hop gets the locks for its own key).',
+    'C18': 'Harnesses: `amhl` (AMHL class, n ≤ 4 / 6), `wrong_hop`, `tools` (`setup_amhl` + adapter cascade), `tools_noseed` (empty seed), `tools_refunds` (partial refund maps: every hop gets the locks for its own key), `sample` (the hash stub's log shows that '
+           '`AMHL.sample` hashes the whole seed and the index).',
     'C19': 'Harnesses: `onestep` (one registry operation from an arbitrary registry state), `history_plugins`, `history_contracts`, '
            '`independence` (compile / assemble / comptime / run results do not depend on an earlier call), `caller_dicts`. Plugins are plain '
            'functions, bound methods and value-equal callables.',
@@ -313,6 +316,13 @@ one item (undefined by the documentation, excluded from C06); the two documentat
   errors; a LOOP whose body empties the stack fails on its condition; `OP_RETURN` moves the pointer to the end. The reference was
   corrected; none of these was reported as a finding. A `SymInt == z3 term` comparison in the check itself produced non-reproducing
   counterexamples (exit 2) and was fixed.
+* **Minimal integer encodings demanded** (C06, first thorough run): the reference required the *minimal* signed encoding; for values just
+  below 2^(8k-1) beyond 2^53 the encoder spends one extra sign byte (the float `log2` rounds up), which the documentation ("as signed
+  int") and C10 allow. 13 replayed "violations" on 8-byte operands were this; the reference now states the documented bound
+  (decodes to the value, at most one byte longer than minimal).
+* **Short digests** (C15, after widening to SHAKE sizes below 16 bytes): the hash stub is collision free only for outputs of at least
+  16 bytes, so for 1- and 15-byte digests the model found collisions the real function does not produce (exit 2). The references now
+  compare commitments (what the lock can check) and "wrong preimage" is stated as "digest differs".
 * **My misreading of `setup_amhl`** (C18): entry[3] is the hop's partial secret, not the key that opens the hop → the obligation
   now uses `AMHL.check_setup` on consecutive hops.
 * Obligations that z3 answers `unknown` for and that could not be reformulated were **removed from the claim and listed as
